@@ -41,7 +41,6 @@ func ReadArguments(reader io.Reader) (args []string, eof bool, err error) {
 			continue
 		} else if !isEscaped && ch == '\\' {
 			isEscaped = true
-			isSeparated = false
 			continue
 		}
 		if isSeparated {
